@@ -1000,6 +1000,31 @@ def _known_init_forwarded_annotation(case, fail: Fail) -> bool:
     return True
 
 
+def _known_parsed_annotation_scope(case, fail: Fail) -> bool:
+    """Items of parsed docstring sections that carry no type borrow the annotation *object* of the documented attribute /
+    function (returns, parameters), whose names live in the scope of that signature - for an attribute assigned in
+    `__init__` the scope of the method (`a -> pkg.A(a)`); the decoder attaches every annotation of the parsed sections to
+    the documented object (`a -> a`). Only annotations inside docstring.parsed, full form, and only names that gain or
+    lose an `__init__`-scope form (or the class-name rule)."""
+    import re
+
+    def init_form(entry: str) -> bool:
+        return bool(re.fullmatch(r"(\w+)->[\w.]+\(\1\)", entry) or re.fullmatch(r"(\w+)->[\w.]+\.__init__\.\1", entry))
+
+    diffs = _name_diffs(fail)
+    if not diffs or not fail.kind.startswith("full:"):
+        return False
+    for where, pairs in diffs:
+        if "parsed" not in where or "annotation" not in where or not pairs:
+            return False
+        for x, y in pairs:
+            name = x.partition("->")[0]
+            if init_form(x) != init_form(y) or x == f"{y}.{name}" or y == f"{x}.{name}":
+                continue
+            return False
+    return True
+
+
 def _known_dataclass_inherited_fields(case, fail: Fail) -> bool:
     """The `__init__` synthesised for a dataclass re-uses the field expressions of its parent dataclasses: their names
     live in the scope of the parent class; after reload every parameter expression is attached to the subclass. Only
@@ -1024,12 +1049,14 @@ STEERING: dict = {
     "init-param-names": "`__init__` parameters, objects defined in `__init__` bodies and nested classes named like their enclosing class are renamed so that no expression of an instance attribute resolves differently from the function scope",
     "dataclass-inherited-fields": "classes decorated with dataclasses.dataclass are rendered without bases",
     "init-forwarded-annotation": "attributes assigned in `__init__` get names (`x_i`) that no class-level attribute has, so no annotation is forwarded to them; a class body defines `__init__` at most once",
+    "parsed-annotation-scope": "docstrings of attributes assigned in `__init__` are rendered without sections",
 }
 KNOWN: dict = {
     "parsed-sections": _known_parsed_sections,
     "init-param-names": _known_init_param_names,
     "dataclass-inherited-fields": _known_dataclass_inherited_fields,
     "init-forwarded-annotation": _known_init_forwarded_annotation,
+    "parsed-annotation-scope": _known_parsed_annotation_scope,
 }
 
 
@@ -1040,6 +1067,8 @@ def _steered(slug: str, case) -> bool:
     if slug == "dataclass-inherited-fields":
         text = json.dumps(case)
         return '"dc": true' in text or '["known", 2]' in text
+    if slug == "parsed-annotation-scope":
+        return bool(case.get("parser")) and '"selfattrs": [[' in json.dumps(case)
     if slug == "init-forwarded-annotation":
         return '"selfattrs": [[' in json.dumps(case)
     if slug == "init-param-names":
